@@ -2,7 +2,7 @@ from props.notif import FAMILY  # noqa: F401
 
 CHECK = dict(
     property='C20', level='exploration',
-    families=[('notif', 1.0)],
+    families=[('notif', 1.0), ('subs', 0.003)],     # a few full-server runs: the organic monitor
     budget=dict(quick=30, thorough=600), max_runs=dict(quick=2_000_000, thorough=50_000_000),
     rule=('each evaluation = one simulated run of the real Notifications object driven by two concurrent '
           'reporter tasks (block processor, mempool tracker) on the virtual-time loop, their calls produced by '
